@@ -252,25 +252,25 @@ impl Settings {
             return Err(msg.into());
         }
 
-        let cfg_rpt_commodity = cfg
-            .report
-            .commodity
-            .map(|c| {
-                Self::inner_get_or_create_commodity(
-                    &mut commodities,
-                    strict_mode,
-                    Some(c.name.as_str()),
-                )
-            })
-            .transpose()?;
-
+        // The report commodity of the configuration is resolved (and checked
+        // against the Chart of Commodities) only when it is not overridden
         let report_commodity = match overlaps.report.commodity {
             Some(c) => Some(Self::inner_get_or_create_commodity(
                 &mut commodities,
                 strict_mode,
                 Some(c.as_str()),
             )?),
-            None => cfg_rpt_commodity,
+            None => cfg
+                .report
+                .commodity
+                .map(|c| {
+                    Self::inner_get_or_create_commodity(
+                        &mut commodities,
+                        strict_mode,
+                        Some(c.name.as_str()),
+                    )
+                })
+                .transpose()?,
         };
 
         if report_commodity.is_none() && lookup_type != PriceLookupType::None {
